@@ -31,6 +31,7 @@ def run(prog, rep):
     rep.part(c10.align, prog, _Map(rep), "C09.masks")
     rep.part(intervals, prog, rep)
     rep.part(defaults, prog, rep)
+    rep.part(ties, prog, rep)
     # which observations fall in which interval is the slicers' business (C10): the same obligations are filed here too
     from vstat.report import Relabel
     sub = Relabel(rep, "C09.membership")
@@ -44,11 +45,41 @@ def run(prog, rep):
     for part in (c14.bounds, c14.start_result, c14.protocol):
         rep.part(part, prog, dep)
     rep.expect_min("C09.dependence", 18)
+    rep.expect_min("C09.ties", 1)
     rep.expect_min("C09.dims", 5)
     rep.expect_min("C09.split", 3)
     rep.expect_min("C09.masks", 4)
     rep.expect_min("C09.intervals", 5)
     rep.expect_min("C09.defaults", 3)
+
+
+def ties(prog, rep):
+    """Order invariance needs the interval of an observation to be a function of its VALUE.  A slicer that cuts the sorted order
+    at fixed positions (equal counts) puts equal values on both sides of a cut into different intervals according to where they
+    stand in the data matrix."""
+    from vstat.terms import walk as _walk
+    q = "virocon.intervals.PointsPerIntervalSlicer._slice"
+    fn = prog.func(q)
+    rep.analysed(fn)
+    b = builder(prog, fn, inline=False)
+    srt = ("call", G("numpy.argsort"), (P("data"),), ())
+    hits = []
+    for st in cfg_of(fn).all_stmts():
+        if isinstance(st, ast.Assign) and isinstance(st.value, ast.Call):
+            t = b.term(st.value, st)
+            if t[0] == "call" and t[1] == G("numpy.split") and len(t[2]) == 2 and any(w == srt for w in _walk(t[2][0])):
+                cnt = t[2][1]
+                by_count = not any(w[0] == "call" and w[1] in (G("numpy.searchsorted"), G("numpy.unique"), G("numpy.flatnonzero"), G("numpy.diff")) for w in _walk(cnt))
+                hits.append((st, by_count))
+    if not hits:
+        rep.ok("C09.ties", f"{q}:rank-split", fn.where(), "no equal-count split of the sorted order found: membership is not decided here", nontrivial=False)
+        return
+    bad = [st for st, by_count in hits if by_count]
+    rep.check(not bad, "C09.ties", f"{q}:rank-split", fn.where(bad[0]) if bad else fn.where(),
+              "cuts of the sorted order are placed at boundaries between different values",
+              "the sorted order np.argsort(data) is cut into chunks of equal COUNT: equal conditioning values on both sides of a cut go to different intervals "
+              "depending on their position in the data matrix, so the fitted model depends on the order of the rows whenever the conditioning variable has ties "
+              "(rounded measurements)")
 
 
 class _Map:
